@@ -15,6 +15,7 @@ import (
 	"math"
 	"math/rand"
 	"net"
+	"sort"
 	"strconv"
 	"strings"
 	"testing"
@@ -155,6 +156,45 @@ func TestVrfReplay(t *testing.T) {
 		// Float bits
 		if math.Float32bits(math.Float32frombits(uint32(u64))) != uint32(u64) && !math.IsNaN(float64(math.Float32frombits(uint32(u64)))) {
 			fail("Float32frombits")
+		}
+		// FormatFloat(f, 'E', -1, 32|64) of a finite value and FormatBool are JSON values (as the encoders write them)
+		f64 := math.Float64frombits(u64)
+		if !math.IsNaN(f64) && !math.IsInf(f64, 0) {
+			if s := strconv.FormatFloat(f64, 'E', -1, 64); !json.Valid([]byte(s)) {
+				fail("FormatFloat 64 %q", s)
+			}
+		}
+		f32 := float64(math.Float32frombits(uint32(u64)))
+		if !math.IsNaN(f32) && !math.IsInf(f32, 0) {
+			if s := strconv.FormatFloat(f32, 'E', -1, 32); !json.Valid([]byte(s)) {
+				fail("FormatFloat 32 %q", s)
+			}
+		}
+		if !json.Valid([]byte(strconv.FormatBool(it%2 == 0))) {
+			fail("FormatBool")
+		}
+		// math.IsNaN / IsInf agree with the bit patterns (exponent all ones; fraction zero or not)
+		exp, frac := (u64>>52)&0x7ff, u64&(1<<52-1)
+		if math.IsNaN(f64) != (exp == 0x7ff && frac != 0) || math.IsInf(f64, 0) != (exp == 0x7ff && frac == 0) {
+			fail("IsNaN/IsInf of %x", u64)
+		}
+		// sort.Ints: sorted, same multiset
+		xs := make([]int, rnd.Intn(12))
+		sum := 0
+		for i := range xs {
+			xs[i] = rnd.Intn(70000)
+			sum += xs[i]
+		}
+		ys := append([]int{}, xs...)
+		sort.Ints(ys)
+		for i := range ys {
+			sum -= ys[i]
+			if i > 0 && ys[i-1] > ys[i] {
+				fail("sort.Ints not sorted")
+			}
+		}
+		if sum != 0 || len(ys) != len(xs) {
+			fail("sort.Ints changed the elements")
 		}
 		n++
 	}
